@@ -12,6 +12,11 @@ for n in $NAMES; do
   git -C /repo apply "$V/seeded/$n/patch.diff" || { echo "$n: patch does not apply"; continue; }
   out=$(./check $P quick 2>&1); rc=$?
   git -C /repo checkout -- .
+  # SAVE_CORPUS=<dir>: keep the first concrete replay as a regression input for this property
+  if [ -n "$SAVE_CORPUS" ]; then
+    f=$(echo "$out" | grep '^VIOLATION' | grep -v 'no-failing-input-found' | grep "property=$P " | head -1 | sed 's/.*replay=\([^ ]*\).*/\1/')
+    [ -n "$f" ] && [ -f "$f" ] && mkdir -p "$SAVE_CORPUS" && cp "$f" "$SAVE_CORPUS/$n.ops"
+  fi
   conc=$(echo "$out" | grep '^VIOLATION' | grep -vc 'no-failing-input-found')
   nofi=$(echo "$out" | grep '^VIOLATION' | grep -c 'no-failing-input-found')
   if [ $conc -gt 0 ]; then echo "$n: $P caught, $conc with a concrete input, $nofi tie-only (rc=$rc)";
